@@ -28,7 +28,7 @@ CONSTANT PathMutation
 Digits   == <<"0", "1", "2", "3", "4", "5", "6", "7", "8", "9">>
 DigitSet == {Digits[j] : j \in 1..10}
 \* [a-zA-Z0-9_] restricted to the characters the models use
-IdChars  == DigitSet \cup {"a", "b", "c", "x", "y", "z", "_"}
+IdChars  == DigitSet \cup {"a", "b", "c", "x", "y", "z", "_", "l", "e", "r", "u", "p", "d", "t", "o"}
 
 IComp(i) == [t |-> "i", i |-> i, s |-> <<>>]
 SComp(s) == [t |-> "s", i |-> 0, s |-> s]
